@@ -136,6 +136,27 @@ func (w *World) rdnSource(root *ssa.Function, seq ssa.Value, at ssa.Instruction)
 		if src := decodedInto(x.Parent(), x, 0); src != nil {
 			return w.ExprIn(root, src)
 		}
+		// a local that holds the value a decoding helper returns (seq, err := unmarshalExact[T](bytes, ...)): the helper
+		// decodes into a variable of its own and hands back its value
+		if stores, okc := cellStores(x); okc && len(stores) == 1 {
+			if call, h, idx := w.asCallResult(throughCell(strip(stores[0].Val))); h != nil && call != nil {
+				body := h
+				if o := h.Origin(); o != nil && len(o.Blocks) > 0 {
+					body = o
+				}
+				if rv := w.successValue(body, idx); rv != nil {
+					if ld, isLd := strip(rv).(*ssa.UnOp); isLd && ld.Op == token.MUL {
+						if al, isAl := ld.X.(*ssa.Alloc); isAl {
+							if src := decodedInto(body, al, 0); src != nil {
+								if p, isParam := throughCell(strip(src)).(*ssa.Parameter); isParam && paramIndex(p) < len(call.Call.Args) {
+									return w.ExprIn(root, call.Call.Args[paramIndex(p)])
+								}
+							}
+						}
+					}
+				}
+			}
+		}
 	case *ssa.Extract, *ssa.Call:
 		call, h, idx := w.asCallResult(x)
 		if h == nil || call == nil {
